@@ -11,7 +11,7 @@ SPEC = {
     "quick_procs": 2, "thorough_procs": 16, "timeout_quick": 400, "timeout_thorough": 2400,
     "anchors": ["PyMatterSim.static.gr:conditional_gr", "PyMatterSim.static.sq:conditional_sq"],
     "must_reach": ["PyMatterSim.static.gr:conditional_gr", "PyMatterSim.static.sq:conditional_sq"],
-    "floors": {"reused_arrays": 60, "gA": 800, "gr_column": 800, "gA_norm": 20, "sq_pervector": 1000, "sq_average": 300,
+    "floors": {"sq_huge": 500, "reused_arrays": 60, "gA": 800, "gr_column": 800, "gA_norm": 20, "sq_pervector": 1000, "sq_average": 300,
                "reduce_partial_gr": 15, "reduce_partial_sq": 20, "reduce_total": 50, "reduce_components": 80},
     "rule": ("single configurations x condition kinds {bool, float, complex128, real vector, complex vector, symmetric tensor, "
              "general tensor} x {2D,3D} x {orthogonal, triclinic (g only)} x masks x bin widths x integer wave-vector lists; "
@@ -93,6 +93,13 @@ def case_gr(ctx, rng):
                     "positions": s.positions if N <= 25 else "omitted", "condition": A if N <= 25 else "omitted"}
     key = f"conditional_gr/{kind}"
     Acall = represent(A, N + int(10 * w * 1000))
+    if rng.random() < 0.3:
+        # history: the SAME snapshot object analysed immediately before with the same bin width and ANOTHER periodicity mask (slab vs bulk)
+        other = ppp.copy()
+        ax = int(rng.integers(0, d))
+        other[ax] = 1 - other[ax]
+        ctx.call(key + "/prior_call_other_mask", conditional_gr, s, Acall, ctype, other, w, data=info)
+        ctx.count("prior_call_other_mask")
     ok, res = ctx.call(key, conditional_gr, s, Acall, ctype, ppp, w, data=info)
     if ok and rng.random() < 0.35:
         # history: the caller keeps its arrays and calls again -- the second answer must be the same table
@@ -272,7 +279,49 @@ def case_sq(ctx, rng):
                       what="vector field vs sum over components", data=info, n=1)
 
 
+def huge_sq(ctx, rng):
+    """one system far beyond the usual size: particles x wave vectors well above 2^22 (block-wise / chunked evaluation boundaries)"""
+    from PyMatterSim.static.sq import conditional_sq
+    d = 3
+    N = int(rng.choice([9000, 12000]))
+    kind = str(rng.choice(["bool", "float", "vector"]))
+    cell = gc.make_cell(rng, d, "ortho", lmin=18.0, lmax=24.0)
+    L = np.diag(cell["H"]).copy()
+    snap = gc.snapshot_from(cell, rng.random((N, d)), np.ones(N, dtype=int), layout="plain")
+    g = np.arange(-4, 5)
+    nv = np.array([[a, b, c] for a in g for b in g for c in g if (a, b, c) != (0, 0, 0)])[: 700 if N == 9000 else 520]
+    A = make_condition(rng, N, d, kind, None)
+    ok, out = ctx.call(f"conditional_sq/{kind}/huge", conditional_sq, snap, nv.copy(), A.copy(), data={"N": N, "nq": len(nv), "kind": kind})
+    ctx.case(f"sq/{kind}/huge", N, len(nv), nontrivial=True)
+    if not ok:
+        return
+    per = out[0]
+    q = 2 * np.pi * nv / L[None, :]
+    S = np.zeros(len(nv))
+    Fv = np.zeros((len(nv), d), dtype=complex)
+    Fs = np.zeros(len(nv), dtype=complex)
+    for a in range(0, N, 1500):                     # block-wise reference with an unrelated block size
+        ph = np.exp(-1j * (snap.positions[a:a + 1500] @ q.T))
+        Ab = A[a:a + 1500]
+        if kind == "vector":
+            Fv += (ph[:, :, None] * Ab[:, None, :]).sum(axis=0)
+        elif kind == "bool":
+            Fs += ph[Ab].sum(axis=0)
+        else:
+            Fs += (ph * Ab[:, None]).sum(axis=0)
+    if kind == "vector":
+        S = (np.abs(Fv / np.sqrt(N)) ** 2).sum(axis=1)
+    elif kind == "bool":
+        S = np.abs(Fs / np.sqrt(A.sum())) ** 2
+    else:
+        S = np.abs(Fs / np.sqrt(N)) ** 2
+    ctx.close("sq_huge", per["Sq"].values, S, f"conditional_sq/{kind}/huge/Sq", rtol=1e-8, atol=0.5e-8 + 1e-12, scale=max(1.0, float(S.max())),
+              what=f"per-vector S, {N} particles x {len(nv)} wave vectors", data={"N": N, "nq": len(nv), "kind": kind})
+
+
 def run(ctx):
+    if ctx.shard in (0, 1) or ctx.thorough:
+        huge_sq(ctx, ctx.rng())
     n = ctx.n(360, 800)
     for i in range(n):
         case_gr(ctx, ctx.rng())
